@@ -415,6 +415,13 @@ pub fn gen_scenario(rng: &mut Rng) -> Scenario {
         } else {
             None
         };
+        // sometimes the very same document text as an earlier source (A B A: the later copy
+        // wins its keys back; a repeated non-object document gets its own value_k)
+        if !flags.is_empty() && derived.is_none() && rng.chance(1, 5) {
+            let again = flags[rng.usize_below(flags.len())].clone();
+            flags.push(again);
+            continue;
+        }
         flags.push(derived.unwrap_or_else(|| gen_input_doc(rng)));
     }
     let stdin = if mode == Mode::EvalStdin {
